@@ -10,5 +10,6 @@ DataBlocks(pr) == IF pr.kind = "file" /\ (pr.action = "CREATE" \/ (pr.action = "
                   THEN SumBlocks(pr.content) ELSE 0
 MCShape(e, k, protos) == [i \in 1..Len(protos) |-> [protos[i] EXCEPT !.hb = 3, !.db = DataBlocks(protos[i])]]
 MCBatch == {<<"a">>, <<"a", "b">>}
+MCBatch0 == {}
 MCChunkBlocks == [c \in Chunks |-> IF c = "c1" THEN 1 ELSE RS + 1]
 =============================================================================
